@@ -216,6 +216,12 @@ def run(res, b, tier, seed):
             cases.append(pipeline.Case("p%d_%d" % (pi, ri), {"main.tsh": rsrc.encode()},
                                        meta=dict(expected_out=out, expected_status=status, src=rsrc, original=src, renaming=m,
                                                  reserved=sorted(v for v in m.values() if is_reserved(v)))))
+    # directed programs (written from the property text): the same identifier spelled in several scopes at once
+    import semprop
+    for name, j in semprop.load_corpus("C02"):
+        cases.append(pipeline.Case("corpus-" + name, {"main.tsh": j["src"].encode()},
+                                   meta=dict(expected_out=j["stdout"], expected_status=j["status"], src=j["src"], original=j["src"],
+                                             renaming="directed program: one spelling used in several scopes", reserved=[])))
     dis, fails = semcheck.check_cases(b, cases)
     res.coverage.update(dict(
         evaluations=len(cases),
